@@ -313,12 +313,164 @@ def band_connection(ctx):
 
 
 # ---------------------------------------------------------------------------------------
+# ---------------------------------------------------------------------------------------
+# query histories (spec/QueryHistory.tla)
+HIST_INV = ["TypeOK", "HistoryIndependent", "HoldersIntact"]
+HIST_TRACE_CFG = ("INIT TInit\nNEXT TNext\nCONSTANTS\n Histories <- MCH\n NacClasses <- MCN\n Codes <- MCC\n EventFile <- MCEventFile\n"
+                  "CHECK_DEADLOCK FALSE\nINVARIANT ReportReq\nINVARIANT Report\nINVARIANT ImplHistoryIndependent\nINVARIANT ImplHoldersIntact\n")
+
+
+def mc_history(codes, emit=False):
+    mc = ("---- MODULE MC_QueryHistory ----\nEXTENDS QueryHistory\nMCH == HistoriesUpTo(3)\n"
+          "MCN == {\"none\", \"wang\", \"gl\"}\nMCC == %s\n====\n" % codes)
+    cfg = ("INIT Init\nNEXT Next\nCONSTANTS\n Histories <- MCH\n NacClasses <- MCN\n Codes <- MCC\nCHECK_DEADLOCK FALSE\n"
+           + "".join("INVARIANT %s\n" % i for i in (["Emit"] if emit else []) + HIST_INV))
+    return mc, cfg
+
+
+def history_model(ctx):
+    """TLC: every history of <= 3 queries answers as a fresh object (repaired machine); the histories themselves."""
+    mc, cfg = mc_history("{[gvReset |-> TRUE]}", emit=True)
+    res = ctx.tlc("MC_QueryHistory", cfg_text=cfg, extra_files={"MC_QueryHistory.tla": mc}, requirement=True,
+                  coverage=True, workers=4, what="query-history machine (repaired variant) violates history independence")
+    hists = []
+    seen = set()
+    for _, h in printed(res.stdout, "H"):
+        key = json.dumps(h, sort_keys=True)
+        if key not in seen:
+            seen.add(key)
+            hists.append([dict(kind=q["kind"], dir=bool(q["dir"]), gv=bool(q["gv"])) for q in h])
+    unc = [a for a, n in res.coverage.items() if n[1] == 0]
+    if len(hists) != 1110 or unc:
+        raise tlcmod.MachineryError("c14: %d histories emitted (1110 expected), uncovered actions %s" % (len(hists), unc))
+    # sensitivity: a GroupVelocity.run that keeps the direction must violate history independence in the model
+    mc, cfg = mc_history("{[gvReset |-> FALSE]}")
+    stale = tlcmod.run("MC_QueryHistory", cfg_text=cfg, extra_files={"MC_QueryHistory.tla": mc}, workers=2)
+    account(ctx, "MC_QueryHistory", stale, "(generated) Codes={gvReset=FALSE}")
+    tlcmod.cleanup(stale)
+    if stale.violated != "HistoryIndependent":
+        raise tlcmod.MachineryError("c14: the history machine without the reset satisfies the requirement - model insensitive")
+    ctx.extra["history_model_without_reset_violates"] = dict(
+        invariant=stale.violated, history=stale.trace[-1][1].get("hist") if stale.trace else None)
+    return hists, stale
+
+
+def start_history_drivers(ctx, hists, rundir):
+    hists = sorted(hists, key=lambda h: (len(h), json.dumps(h, sort_keys=True)))
+    short = [h for h in hists if len(h) <= 2]
+    long3 = [h for h in hists if len(h) == 3]
+    if ctx.quick:
+        rng = __import__("random").Random(ctx.seed * 7919 + 14)
+        long3 = rng.sample(long3, 40)
+    cases = [dict(entry="cscl", nac=n, hist=h) for n in ("none", "wang", "gl") for h in short + long3]
+    procs = []
+    for n, var in enumerate(("omp", "serial")):
+        plan = os.path.join(rundir, "hplan_%s.json" % var)
+        with open(plan, "w") as f:
+            json.dump(dict(seed=ctx.seed, id_base=n * 1000000, cases=cases), f)
+        out = os.path.join(rundir, "hevents_%s.json" % var)
+        env = dict(os.environ, VERIF_EXT_VARIANT=var, OMP_NUM_THREADS="2", OMP_WAIT_POLICY="PASSIVE", PYTHONWARNINGS="ignore",
+                   PYTHONDONTWRITEBYTECODE="1")
+        p = subprocess.Popen([sys.executable, "-m", "harness.c14_history", plan, out], cwd=VERIF, env=env,
+                             stdout=subprocess.PIPE, stderr=subprocess.STDOUT)
+        procs.append((var, p, out))
+    return procs
+
+
+def history_validate(ctx, procs, stale):
+    events = []
+    info = {}
+    for var, p, out in procs:
+        so, _ = p.communicate(timeout=3000)
+        if p.returncode != 0:
+            raise tlcmod.MachineryError("c14 history driver (%s build) failed:\n%s" % (var, so.decode(errors="replace")[-3000:]))
+        with open(out) as f:
+            d = json.load(f)
+        if d["omp"] != (var == "omp"):
+            raise tlcmod.MachineryError("c14 history driver: build %s reports use_openmp()=%s" % (var, d["omp"]))
+        for e in d["events"]:
+            e["omp"] = d["omp"]
+        info[var] = dict(histories=len(d["events"]), wall_s=round(d["wall"], 1))
+        events += d["events"]
+    ctx.extra["history_drivers"] = info
+    ctx.traces += len(events)
+    for e in events:
+        ctx.count(("hist", e["nac"], e["omp"], json.dumps(e["hist"], sort_keys=True)))
+    rundir = tlcmod.new_rundir("MC_QueryHistoryTrace")
+    path = os.path.join(rundir, "events.ndjson")
+    with open(path, "w") as f:
+        for e in events:
+            f.write(json.dumps(dict(id=e["id"], nac=e["nac"], hist=e["hist"], reread=e["reread"],
+                                    obs=[dict(gvp=o["gvp"], fdir=o["fdir"], fresh=o["fresh"]) for o in e["obs"]])) + "\n")
+    mc = ("---- MODULE MC_QueryHistoryTrace ----\nEXTENDS QueryHistoryTrace\nMCH == {}\nMCN == {}\nMCC == {}\n"
+          "MCEventFile == \"%s\"\n====\n" % path)
+    res = tlcmod.run("MC_QueryHistoryTrace", cfg_text=HIST_TRACE_CFG, extra_files={"MC_QueryHistoryTrace.tla": mc},
+                     extra_args=("-continue",), workers=4, rundir=rundir, keep=True)
+    tlcmod.cleanup(res)
+    account(ctx, "MC_QueryHistoryTrace", res, "(generated, %d histories)" % len(events))
+    byid = {e["id"]: e for e in events}
+    conf = {}
+    verdict = {}
+    for _, eid, reset, ok in printed(res.stdout, "R"):
+        conf.setdefault(eid, {})[bool(reset)] = bool(ok)
+    for _, eid, badq, holders in printed(res.stdout, "Q"):
+        verdict[eid] = (sorted(badq), bool(holders))
+    if set(verdict) != set(byid) or set(conf) != set(byid):
+        raise tlcmod.MachineryError("c14: TLC reported on %d/%d of %d histories" % (len(verdict), len(conf), len(events)))
+    tlc_names = set(n for n, _ in res.violations)
+    mine = set()
+    groups = {}
+    for eid, (badq, holders) in verdict.items():
+        e = byid[eid]
+        for j in badq:
+            mine.add("ImplHistoryIndependent")
+            prev = e["hist"][j - 2]["kind"] if j > 1 else "nothing"
+            groups.setdefault("history:Independent:%s" % e["hist"][j - 1]["kind"], []).append((eid, j, prev))
+        if not holders:
+            mine.add("ImplHoldersIntact")
+            groups.setdefault("history:HoldersIntact", []).append((eid, 0, ""))
+    if mine != set(n for n in tlc_names if n.startswith("Impl")):
+        raise tlcmod.MachineryError("c14: history invariant verdicts %s differ from the per-event report %s" % (sorted(tlc_names), sorted(mine)))
+    for key, items in sorted(groups.items()):
+        wit = []
+        for eid, j, prev in items[:3]:
+            e = byid[eid]
+            wit.append(dict(crystal=e["entry"], nac=e["nac"], openmp_build=e["omp"], history=e["hist"], failing_query=j,
+                            observed=e["obs"], reread=e["reread"],
+                            how="replay the history on one Phonopy object (harness/c14_history.py: QLIST, MESH, PATH, DIRS) and compare query j with the same query on a fresh object"))
+        ctx.violation(key, "query %s of a history does not answer as on a fresh Phonopy object (%d histories; requirement HistoryIndependent of QueryHistory.tla on the logged arrays)"
+                      % (key.split(":")[-1], len(set(i[0] for i in items))), dict(histories=len(set(i[0] for i in items)), witnesses=wit))
+    ctx.extra["histories_replayed"] = len(events)
+    ctx.extra["histories_violating"] = len([1 for v in verdict.values() if v[0] or not v[1]])
+    ctx.sample(dict(history_event=events[len(events) // 2]))
+    # which variant of the history machine is this tree
+    okv = [v for v in (True, False) if all(conf[i].get(v, False) for i in conf)]
+    distinguished = any(conf[i].get(True) != conf[i].get(False) for i in conf)
+    ctx.extra["history_conforms_to_gvReset"] = okv
+    if not distinguished and not ctx.violations:
+        raise tlcmod.MachineryError("c14: no history distinguishes a GroupVelocity that keeps its direction from one that resets it")
+    if okv == [False]:
+        ctx.violation("tlc:QueryHistory:HistoryIndependent",
+                      "TLC: the variant of the history machine this tree conforms to (GroupVelocity.run keeps a stale direction) violates HistoryIndependent",
+                      dict(counterexample_history=stale.trace[-1][1].get("hist") if stale.trace else None,
+                           reported=stale.trace[-1][1].get("res") if stale.trace else None))
+    elif not okv:
+        drift = [i for i in conf if not any(conf[i].values())]
+        ctx.extra["HISTORY-SPEC-DRIFT"] = dict(histories_conforming_to_no_variant=len(drift),
+                                               sample=[dict(hist=byid[i]["hist"], obs=byid[i]["obs"], reread=byid[i]["reread"]) for i in drift[:3]])
+        print("SPEC-DRIFT C14: %d histories conform to no variant of QueryHistory.tla" % len(drift))
+        if not ctx.violations:
+            ctx.violation("conformance:history-no-variant", "the real object's answers are not those of any variant of the history machine",
+                          ctx.extra["HISTORY-SPEC-DRIFT"])
+
+
 def run(ctx):
     ctx.rule = ("one case = one call of the real API for one configuration (path, output flags, band-connection, "
                 "NAC class, decimals, direction, q-list shape, mesh spec, build) on one catalogue crystal; the "
                 "configurations are all those reachable in AccessPaths.tla (AllCfgs); distinct = distinct "
                 "(configuration, crystal, q realisation class); plus one case per (overlap matrix, previous order) "
-                "replayed on estimate_band_connection")
+                "replayed on estimate_band_connection; plus one case per (history of <= 3 queries, NAC class, build) "
+                "replayed on one fresh Phonopy object")
     ctx.assumptions += [
         "with NAC the matrix named by a token is DynamicalMatrixNAC.run(q, q_direction) of a separate reference Phonopy object "
         "(C08 owns its correctness); without NAC it is the exact lattice Fourier sum of the TLC-computed spring model",
@@ -341,6 +493,8 @@ def run(ctx):
     rundir = tlcmod.new_rundir("c14drv")
     cases = make_plan(ctx, cfgs)
     procs = start_drivers(ctx, cases, rundir)
+    hists, stale = history_model(ctx)
+    hprocs = start_history_drivers(ctx, hists, rundir)
     pool = ThreadPoolExecutor(max_workers=3)
     mcp, cfgp = mc_access("{Pinned}")
     fut_pinned = pool.submit(tlcmod.run, "MC_AccessPaths", cfg_text=cfgp, extra_files={"MC_AccessPaths.tla": mcp},
@@ -349,8 +503,9 @@ def run(ctx):
         from harness import bootstrap  # noqa: F401  (real estimate_band_connection for the replay below)
         band_connection(ctx)
         events, info = collect_drivers(procs)
+        history_validate(ctx, hprocs, stale)
     finally:
-        for _, p, _ in procs:
+        for _, p, _ in procs + hprocs:
             if p.poll() is None:
                 p.kill()
     ctx.extra["drivers"] = info
